@@ -1,11 +1,422 @@
+// C15 harness, gen.go: history generator, fixed corpus, and the oracle (the property on the implementation's answers).
 package main
 
 import (
+	"fmt"
+	"math/big"
 	"math/rand"
+	"strconv"
+	"strings"
 
 	"verifharness/lib/corr"
 )
 
-func gen(r *rand.Rand, thorough bool, i int) []string { return nil }
-func fixed() [][]string                               { return nil }
-func oracle(ops, outs []string) *corr.Violation        { return nil }
+const initTail = " 10000000000 0 2592000" // min_stake_per_delegate, readpool.min_lock, time_unit (s) of the repo's sc.yaml
+
+var prices = []uint64{0, 1, 3, 16384, 16385, 100000000, 300000000, 123456789, 70000000000, 9999999999}
+
+func pick[T any](r *rand.Rand, xs []T) T { return xs[r.Intn(len(xs))] }
+
+// gen: a world (2-4 blobbers with boundary-biased read prices and service charges, 1-3 allocations, funded read pools),
+// then redemptions: mostly well-formed markers whose counters move forward by boundary-biased deltas, mixed with
+// equal/older counters, the same counter on another allocation or blobber, timestamps on and around the allocation's
+// window, wrong signers, fields tampered with after signing, foreign/undecodable public keys, arbitrary senders,
+// pool locks/unlocks, time jumps over the expiration, kills, allocations created mid-history, malformed inputs.
+func gen(r *rand.Rand, thorough bool, i int) []string {
+	ops := []string{fmt.Sprintf("init g%d-%d", i, r.Int63()) + initTail}
+	nb := 2 + r.Intn(3)
+	bprice := make([]uint64, nb)
+	for b := 0; b < nb; b++ {
+		p := pick(r, prices)
+		if r.Intn(5) == 0 {
+			p = uint64(r.Int63n(70000000001))
+		}
+		bprice[b] = p
+		charge := pick(r, []int{0, 100, 250, 500, 1, 333})
+		ops = append(ops, fmt.Sprintf("addb %d %d %d %d", b, p, charge, pick(r, []uint64{1000000000000, 500000000000, 20000000000})))
+	}
+	type al struct{ blobs []int }
+	var allocs []al
+	now := int64(startNow)
+	type win struct{ start, exp int64 }
+	var wins []win
+	newAlloc := func() {
+		k := 2 + r.Intn(nb-1)
+		if k > nb {
+			k = nb
+		}
+		perm := r.Perm(nb)[:k]
+		var s []string
+		for _, b := range perm {
+			s = append(s, strconv.Itoa(b))
+		}
+		ops = append(ops, fmt.Sprintf("newa %d %s 100000000000", r.Intn(nClients), strings.Join(s, ",")))
+		allocs = append(allocs, al{perm})
+		wins = append(wins, win{now, now + 2592000})
+	}
+	for n := 1 + r.Intn(3); n > 0; n-- {
+		newAlloc()
+	}
+	for c := 0; c < nClients; c++ {
+		switch r.Intn(5) {
+		case 0: // no pool
+		case 1:
+			ops = append(ops, fmt.Sprintf("lock %d %d %d", c, c, pick(r, []uint64{1, 6103, 50000, 0})))
+		default:
+			ops = append(ops, fmt.Sprintf("lock %d %d %d", c, c, pick(r, []uint64{5000000000, 1000000000000, 70000000000000})))
+		}
+	}
+	last := map[string]int64{}
+	n := 8 + r.Intn(25)
+	if thorough {
+		n = 10 + r.Intn(80)
+	}
+	huge := r.Intn(12) == 0 // a slice of the cases explores counters at and beyond the int64 product boundary
+	for k := 0; k < n; k++ {
+		switch x := r.Intn(100); {
+		case x < 72:
+			c := r.Intn(nClients)
+			a := r.Intn(len(allocs))
+			b := pick(r, allocs[a].blobs)
+			if r.Intn(12) == 0 {
+				b = r.Intn(nBlobbers) // possibly not in the allocation, possibly unregistered
+			}
+			aTok := a
+			if r.Intn(25) == 0 {
+				aTok = len(allocs) + r.Intn(2) // no such allocation
+			}
+			key := fmt.Sprintf("%d|%d|%d", b, c, aTok)
+			var ctr int64
+			switch y := r.Intn(100); {
+			case y < 55:
+				ctr = last[key] + pick(r, []int64{1, 1, 2, 3, 5, 16, 16384, 16385, 100000, 1 << 20})
+			case y < 70:
+				ctr = last[key] // replay
+			case y < 82:
+				ctr = last[key] - pick(r, []int64{1, 2, 100}) // older (or ≤ 0)
+			case y < 90:
+				ctr = pick(r, []int64{0, -1, 1, 2, 1 << 31, 1 << 40})
+			default:
+				ctr = last[key] + r.Int63n(1<<22)
+			}
+			if huge && r.Intn(3) == 0 {
+				ctr = last[key] + pick(r, []int64{1 << 46, 1<<47 - 1, 1 << 47, 1<<47 + 1, 1 << 48, 1<<48 + 1, 1<<48 + 3, 1 << 62, 1<<63 - 1 - last[key]})
+			}
+			w := wins[a]
+			ts := w.start + r.Int63n(w.exp-w.start+1)
+			switch r.Intn(14) {
+			case 0:
+				ts = pick(r, []int64{w.start, w.exp, w.start - 1, w.exp + 1, 0, -5, 1})
+			case 1:
+				ts = now
+			}
+			signer, pk := fmt.Sprintf("c%d", c), fmt.Sprintf("c%d", c)
+			switch r.Intn(16) {
+			case 0:
+				signer = pick(r, []string{"c0", "c1", "c2", "c3", "b0", "b1"})
+			case 1:
+				pk = pick(r, []string{"c0", "c1", "b0", "bad"})
+			}
+			tk, tv := "none", "0"
+			if r.Intn(8) == 0 {
+				tk = pick(r, []string{"ctr", "ts", "alloc", "blobber", "owner", "client", "sigbad", "sigother", "nosig", "ctr"})
+				switch tk {
+				case "ctr":
+					tv = strconv.FormatInt(ctr+pick(r, []int64{1, -1, 1000, 0}), 10)
+				case "ts":
+					tv = strconv.FormatInt(ts+pick(r, []int64{1, -1, 0}), 10)
+				case "alloc":
+					tv = strconv.Itoa(r.Intn(len(allocs) + 1))
+				case "blobber":
+					tv = strconv.Itoa(r.Intn(nb))
+				case "owner", "client":
+					tv = strconv.Itoa(r.Intn(nClients))
+				}
+			}
+			bTok := strconv.Itoa(b)
+			if r.Intn(40) == 0 {
+				bTok = "none"
+			}
+			sub := pick(r, []string{fmt.Sprintf("b%d", b), fmt.Sprintf("c%d", c), "c3", "b1"})
+			ops = append(ops, fmt.Sprintf("rm %s %d %s %s %d %d %d %d %s %s %s", sub, c, pk, bTok, aTok, r.Intn(nClients), ctr, ts, signer, tk, tv))
+			if ctr > last[key] && tk == "none" && signer == pk && pk == fmt.Sprintf("c%d", c) && ts >= w.start && ts <= w.exp && bTok != "none" && aTok == a {
+				last[key] = ctr // what an accepted redemption would store (the generator need not be right)
+			}
+		case x < 80:
+			c := r.Intn(nClients)
+			ops = append(ops, fmt.Sprintf("lock %d %d %d", c, pick(r, []int{c, c, r.Intn(nClients)}), pick(r, []uint64{0, 1, 6104, 5000000000, 1000000000000})))
+		case x < 85:
+			ops = append(ops, fmt.Sprintf("unlock %d", r.Intn(nClients)))
+		case x < 90:
+			d := pick(r, []int64{1, 60, 86400, 2591990, 2592000, 10})
+			now += d
+			ops = append(ops, fmt.Sprintf("tick %d", d))
+		case x < 93:
+			ops = append(ops, fmt.Sprintf("kill %d", r.Intn(nb)))
+		case x < 96:
+			if len(allocs) < 6 {
+				live := true
+				for _, o := range ops {
+					if strings.HasPrefix(o, "kill ") {
+						live = false // the model does not describe allocation requests on killed blobbers
+					}
+				}
+				if live {
+					newAlloc()
+				}
+			}
+		case x < 98:
+			ops = append(ops, "raw "+pick(r, []string{"array", "nomarker", "null", "bigctr", "strctr"}))
+		default:
+			ops = append(ops, pick(r, []string{"rm b0 0 c0 0 0 0 1", "lock 9 0 1", "unlock", "rm b0 0 c0 0 0 0 1 1700000001 c0 none 7", "rm b0 0 c0 0 0 0 +1 1700000001 c0 none 0", "tick -1", "frobnicate"}))
+		}
+	}
+	return ops
+}
+
+func fixed() [][]string {
+	w := []string{"init fx0" + initTail, "addb 0 100000000 100 1000000000000", "addb 1 300000000 0 1000000000000", "addb 2 0 500 1000000000000",
+		"newa 0 0,1 100000000000", "newa 1 1,2 100000000000", "lock 0 0 5000000000"}
+	with := func(tag string, more ...string) []string {
+		c := append([]string{}, w...)
+		c[0] = "init " + tag + initTail
+		return append(c, more...)
+	}
+	return [][]string{
+		// increments, an equal counter, an older counter, the same counter on another allocation and another blobber
+		with("fx1", "rm b0 0 c0 0 0 0 1 1700000000 c0 none 0", "rm b0 0 c0 0 0 0 5 1700000001 c0 none 0", "rm b0 0 c0 0 0 0 5 1700000001 c0 none 0",
+			"rm b0 0 c0 0 0 0 4 1700000001 c0 none 0", "rm b0 0 c0 0 1 0 5 1700000001 c0 none 0", "rm b0 0 c0 1 1 0 5 1700000001 c0 none 0", "rm b1 0 c0 1 0 0 5 1700000002 c0 none 0"),
+		// negation witness of the unguarded charge statement: counter delta 2^48 wraps the int64 byte count to 0
+		with("fx2", "rm c2 0 c0 1 0 0 281474976710656 1700000001 c0 none 0"),
+		// … and 2^48+1 is charged as one chunk
+		with("fx3", "rm c2 0 c0 0 0 0 281474976710657 1700000001 c0 none 0"),
+		// negative wrapped byte count: conversion out of range, refused
+		with("fx4", "rm c2 0 c0 0 0 0 5 1700000001 c0 none 0", "rm c2 0 c0 0 0 0 281474976710657 1700000001 c0 none 0", "rm c2 0 c0 0 0 0 9223372036854775807 1700000001 c0 none 0"),
+		// signatures
+		with("fx5", "rm c2 0 c0 0 0 0 7 1700000001 c1 none 0", "rm c2 0 c1 0 0 0 7 1700000001 c0 none 0", "rm c2 0 bad 0 0 0 7 1700000001 c0 none 0",
+			"rm c2 0 c0 0 0 0 7 1700000001 c0 ctr 8", "rm c2 0 c0 0 0 0 7 1700000001 c0 ts 1700000002", "rm c2 0 c0 0 0 0 7 1700000001 c0 alloc 1",
+			"rm c2 0 c0 0 0 0 7 1700000001 c0 blobber 1", "rm c2 0 c0 0 0 0 7 1700000001 c0 owner 1", "rm c2 0 c0 0 0 0 7 1700000001 c0 client 1",
+			"rm c2 0 c0 0 0 0 7 1700000001 c0 sigbad 0", "rm c2 0 c0 0 0 0 7 1700000001 c0 sigother 0", "rm c2 0 c0 0 0 0 7 1700000001 c0 nosig 0",
+			"rm c2 0 c0 0 0 0 7 1700000001 c0 ctr 7", "rm c2 0 c0 0 0 0 7 1700000001 c0 none 0"),
+		// window, fields, unknown allocation, foreign blobber, pools
+		with("fx6", "rm c2 0 c0 0 0 0 3 1699999999 c0 none 0", "rm c2 0 c0 0 0 0 3 1702592001 c0 none 0", "rm c2 0 c0 0 0 0 3 1702592000 c0 none 0",
+			"rm c2 1 c1 0 0 0 3 1700000005 c1 none 0", "rm c2 1 c1 0 0 0 0 1700000005 c1 none 0", "rm c2 1 c1 none 0 0 3 1700000005 c1 none 0",
+			"rm c2 1 c1 0 7 0 3 1700000005 c1 none 0", "rm c2 1 c1 2 0 0 3 1700000005 c1 none 0", "rm c2 0 c0 0 0 0 4 0 c0 none 0",
+			"raw array", "raw nomarker", "raw null", "raw bigctr", "raw strctr", "kill 0", "rm b0 0 c0 0 0 0 9 1700000001 c0 none 0", "kill 0",
+			"unlock 0", "unlock 3", "lock 3 1 0", "lock 3 1 77", "rm b1 1 c1 1 0 0 2 1700000001 c1 none 0", "tick 2592001", "rm b1 1 c1 1 0 0 3 1700000001 c1 none 0", "rm b1 1 c1 1 0 0 4 1702592001 c1 none 0"),
+		{"init fx7" + initTail, "rm b0 0 c0 0 0 0 1 1700000001 c0 none 0", "unlock 0", "frobnicate", "rm b0", "lock 0 0 x", "init"},
+	}
+}
+
+// ---------------------------------------------------------------- oracle
+
+type kv map[string]string
+
+func parseObs(out string) (cls string, m kv) {
+	f := strings.Fields(out)
+	m = kv{}
+	if len(f) == 0 {
+		return "", m
+	}
+	for _, p := range f[1:] {
+		if i := strings.IndexByte(p, '='); i > 0 {
+			m[p[:i]] = p[i+1:]
+		}
+	}
+	return f[0], m
+}
+
+func u(s string) uint64 {
+	if s == "-" || s == "" {
+		return 0
+	}
+	v, _ := strconv.ParseUint(s, 10, 64)
+	return v
+}
+
+// exactCharge: ⌊price · (delta · CHUNK) / GB⌋ over the integers — "the read price times the newly read size".
+func exactCharge(price uint64, delta int64) *big.Int {
+	n := new(big.Int).Mul(new(big.Int).SetUint64(price), big.NewInt(delta))
+	n.Mul(n, big.NewInt(65536))
+	return n.Div(n, big.NewInt(1<<30))
+}
+
+// oracle: C15 on the implementation's answers alone. It keeps its own books (locks, unlocks, accepted redemptions per
+// key) and compares them with what the contract reports after every operation.
+func oracle(ops, outs []string) *corr.Violation {
+	mk := func(sig, msg string) *corr.Violation {
+		return &corr.Violation{Signature: "C15:" + sig, Message: msg, Ops: ops, Impl: outs}
+	}
+	type alloc struct {
+		start, exp int64
+		price      map[int]uint64
+	}
+	var allocs []alloc
+	pool := map[int]*big.Int{} // expected read-pool balance per client (absent = never created)
+	lastCtr := map[string]int64{}
+	charged := map[string]*big.Int{} // Σ debits per key
+	steps := map[string]int{}
+	for i, line := range ops {
+		op := strings.Fields(line)
+		if len(op) == 0 || outs[i] == "bad-op" {
+			continue
+		}
+		cls, ob := parseObs(outs[i])
+		if strings.HasPrefix(cls, "panic") || strings.HasPrefix(cls, "harness-panic") {
+			return mk("panic", fmt.Sprintf("op %d %q: %s", i, line, outs[i]))
+		}
+		switch op[0] {
+		case "init":
+			allocs, pool, lastCtr, charged, steps = nil, map[int]*big.Int{}, map[string]int64{}, map[string]*big.Int{}, map[string]int{}
+		case "newa":
+			if cls != "ok" {
+				continue
+			}
+			f := strings.Split(ob["alloc"], ":")
+			if len(f) < 4 {
+				continue
+			}
+			a := alloc{price: map[int]uint64{}}
+			a.start, _ = strconv.ParseInt(f[1], 10, 64)
+			a.exp, _ = strconv.ParseInt(f[2], 10, 64)
+			rest := strings.Split(strings.Join(f[3:], ":"), ",")
+			for _, bp := range rest {
+				x := strings.Split(bp, ":")
+				if len(x) == 2 {
+					a.price[atoi(x[0])] = u(x[1])
+				}
+			}
+			allocs = append(allocs, a)
+		case "lock":
+			t := atoi(op[2])
+			if cls == "ok" {
+				if pool[t] == nil {
+					pool[t] = new(big.Int)
+				}
+				pool[t].Add(pool[t], new(big.Int).SetUint64(u(op[3])))
+			}
+			if e := pool[t]; (e == nil) != (ob["rp"] == "-") || (e != nil && e.String() != ob["rp"]) {
+				return mk("pool-ledger", fmt.Sprintf("op %d %q: read pool of client %d is %s, locks - unlocks - charges say %v", i, line, t, ob["rp"], e))
+			}
+		case "unlock":
+			j := atoi(op[1])
+			if cls == "ok" && pool[j] != nil {
+				pool[j] = new(big.Int)
+			}
+			if e := pool[j]; (e == nil) != (ob["rp"] == "-") || (e != nil && e.String() != ob["rp"]) {
+				return mk("pool-ledger", fmt.Sprintf("op %d %q: read pool of client %d is %s, books say %v", i, line, j, ob["rp"], e))
+			}
+		case "rm":
+			a := op[1:]
+			c, pk, bTok, ai := atoi(a[1]), a[2], a[3], atoi(a[4])
+			ctr, _ := strconv.ParseInt(a[6], 10, 64)
+			ts, _ := strconv.ParseInt(a[7], 10, 64)
+			signer, tk, tv := a[8], a[9], a[10]
+			authentic := signer == fmt.Sprintf("c%d", c) && pk == signer // signed by the key whose hash is the client id
+			bi := -1
+			if bTok != "none" {
+				bi = atoi(bTok)
+			}
+			switch tk { // a field changed after signing (to a different value) breaks the signature
+			case "ctr":
+				v, _ := strconv.ParseInt(tv, 10, 64)
+				authentic = authentic && v == ctr
+				ctr = v
+			case "ts":
+				v, _ := strconv.ParseInt(tv, 10, 64)
+				authentic = authentic && v == ts
+				ts = v
+			case "alloc":
+				authentic = authentic && atoi(tv) == ai
+				ai = atoi(tv)
+			case "blobber":
+				authentic = authentic && atoi(tv) == bi
+				bi = atoi(tv)
+			case "owner":
+				authentic = authentic && tv == a[5]
+			case "client":
+				authentic = authentic && atoi(tv) == c
+				c = atoi(tv)
+			case "sigbad", "sigother", "nosig":
+				authentic = false
+			}
+			key := fmt.Sprintf("%d|%d|%d", bi, c, ai)
+			before := new(big.Int)
+			if pool[c] != nil {
+				before.Set(pool[c])
+			}
+			after := new(big.Int).SetUint64(u(ob["rp"]))
+			if cls != "ok" {
+				// a refused redemption changes neither the pool nor the stored counter
+				if (pool[c] == nil) != (ob["rp"] == "-") || after.Cmp(before) != 0 {
+					return mk("refused-redeem-changed-pool", fmt.Sprintf("op %d %q answered %s but the read pool went %v -> %s", i, line, cls, pool[c], ob["rp"]))
+				}
+				if l, ok := lastCtr[key]; (ok && ob["ctr"] != strconv.FormatInt(l, 10)) || (!ok && ob["ctr"] != "-") {
+					return mk("refused-redeem-changed-counter", fmt.Sprintf("op %d %q answered %s but the stored counter is %s (was %v)", i, line, cls, ob["ctr"], lastCtr[key]))
+				}
+				continue
+			}
+			if !authentic {
+				return mk("unsigned-marker-accepted", fmt.Sprintf("op %d %q: accepted although the marker as submitted is not signed by the key whose hash is its client id", i, line))
+			}
+			if ai >= len(allocs) || bi < 0 {
+				return mk("accepted-without-allocation", fmt.Sprintf("op %d %q", i, line))
+			}
+			al := allocs[ai]
+			price, in := al.price[bi]
+			if !in {
+				return mk("accepted-foreign-blobber", fmt.Sprintf("op %d %q: blobber %d does not serve allocation %d", i, line, bi, ai))
+			}
+			if ts < al.start || ts > al.exp {
+				return mk("accepted-outside-window", fmt.Sprintf("op %d %q: timestamp %d outside [%d,%d]", i, line, ts, al.start, al.exp))
+			}
+			l := lastCtr[key]
+			if ctr < l || ctr <= 0 {
+				return mk("counter-moved-backwards", fmt.Sprintf("op %d %q: counter %d accepted after %d", i, line, ctr, l))
+			}
+			debit := new(big.Int).Sub(before, after)
+			if debit.Sign() < 0 {
+				return mk("redeem-credited-pool", fmt.Sprintf("op %d %q: pool grew %v -> %v", i, line, before, after))
+			}
+			delta := ctr - l
+			want := exactCharge(price, delta)
+			// float64 evaluation of price·size: exact below 2^53, otherwise within one unit in the last place (+1 for the truncation)
+			tol := new(big.Int)
+			if new(big.Int).Mul(new(big.Int).SetUint64(price), new(big.Int).Mul(big.NewInt(delta), big.NewInt(65536))).BitLen() > 53 {
+				tol.Rsh(want, 52)
+				tol.Add(tol, big.NewInt(1))
+			}
+			if diff := new(big.Int).Abs(new(big.Int).Sub(debit, want)); diff.Cmp(tol) > 0 {
+				if new(big.Int).Mul(big.NewInt(delta), big.NewInt(65536)).BitLen() > 63 {
+					return mk("counter-delta-overflow", fmt.Sprintf("op %d %q: counter %d -> %d (%d chunks) at read price %d debited %v, read price x read size = %v (the int64 byte count numReads*CHUNK_SIZE wrapped)", i, line, l, ctr, delta, price, debit, want))
+				}
+				return mk("charge-mismatch", fmt.Sprintf("op %d %q: counter %d -> %d at read price %d debited %v, read price x newly read size = %v", i, line, l, ctr, price, debit, want))
+			}
+			if delta == 0 && debit.Sign() != 0 {
+				return mk("replay-charged", fmt.Sprintf("op %d %q: an equal counter was charged %v", i, line, debit))
+			}
+			if ob["ctr"] != strconv.FormatInt(ctr, 10) {
+				return mk("counter-not-stored", fmt.Sprintf("op %d %q: stored counter %s after accepting %d", i, line, ob["ctr"], ctr))
+			}
+			lastCtr[key] = ctr
+			if pool[c] == nil {
+				pool[c] = new(big.Int)
+			}
+			pool[c].Set(after)
+			if charged[key] == nil {
+				charged[key] = new(big.Int)
+			}
+			charged[key].Add(charged[key], debit)
+			steps[key]++
+			// telescoping: Σ debits of the key vs price × max counter (each step truncates once; no overflow, exact range)
+			tot := exactCharge(price, ctr)
+			if new(big.Int).Mul(new(big.Int).SetUint64(price), new(big.Int).Mul(big.NewInt(ctr), big.NewInt(65536))).BitLen() <= 53 {
+				lo := new(big.Int).Sub(tot, big.NewInt(int64(steps[key])))
+				if charged[key].Cmp(tot) > 0 || charged[key].Cmp(lo) <= 0 && steps[key] > 0 && charged[key].Cmp(tot) != 0 {
+					return mk("total-not-telescoping", fmt.Sprintf("op %d %q: key %s charged %v in %d steps, read price x max counter = %v", i, line, key, charged[key], steps[key], tot))
+				}
+			}
+		}
+	}
+	return nil
+}
